@@ -308,3 +308,25 @@ func regoC13(c *checkCtx) {
 	}
 	c.absorb(outs, "C13.message-substitution")
 }
+
+// regoC15: results are invariant under meaning-preserving rewrites of the profile text.
+func regoC15(c *checkCtx) {
+	bases := regosym.BaseProfilesC15()
+	rws := regosym.Rewrites()
+	n := 2
+	if c.tier == "thorough" {
+		n = 3
+	}
+	c.evidence["bounds_regosym"] = map[string]any{"base_profiles": len(bases), "rewrites": len(rws), "nodes": n, "compared": "severity, validation, focus node, message of every result"}
+	var descs []string
+	for _, r := range rws {
+		descs = append(descs, r.Description)
+	}
+	c.evidence["rewrite_catalogue"] = descs
+	outs, err := runRewrites(regoWork(c), bases, rws, n, 16)
+	if err != nil {
+		c.inconclusive("regosym: " + err.Error())
+		return
+	}
+	c.absorb(outs, "C15.results-eq-under-rewrite")
+}
